@@ -885,7 +885,11 @@ impl<'env> Executor<'env> {
                 }
                 #[cfg(feature = "multi_template")]
                 Instruction::CallBlock(name) => {
-                    if parent_instructions.is_none() && !out.is_discarding() {
+                    // the placement of a block in a template that extends
+                    // another one is only a definition (its output would be
+                    // discarded).  The value of an explicit `self.name()` call
+                    // is captured and used, also after `extends`.
+                    if !out.is_discarding() {
                         ctx_ok!(Self::call_block(name, state, out));
                     }
                 }
